@@ -336,6 +336,11 @@ def run(pr, repo):
                 continue
             tasks.insert(0, (task_boxes_pair, (e1, e2, prior, (order,))))
     pr.parallel(tasks)
+    # atoms are mutable: the distance and the criterion are recomputed from the present coordinates at every call
+    from . import frames
+    frames.query_is_pure(pr, repo, ['propka.calculations.squared_distance', 'propka.calculations.distance',
+                                    'propka.bonds.BondMaker.check_distance', 'propka.bonds.BondMaker.has_bond'],
+                         'distance and bond criterion')
     pr.assumptions += ['A-REAL: floor(x/box_size) over the reals (margin 0.01 A >> rounding)',
                        'n > 2 atoms: each pair is treated as in the two-atom proof because find_bonds_for_atoms / '
                        '_disjoint examine every pair of a box / of two boxes (CV) and the offsets cover every neighbour '
